@@ -1260,7 +1260,7 @@ func cmdSelftest(args []string) int {
 		procs, _ = strconv.Atoi(args[2])
 	}
 	base := seedFromEnv()
-	profNames := []string{"mix", "elect", "snap", "member", "crash"}
+	profNames := []string{"mix", "elect", "snap", "member", "crash", "repl", "transfer", "snapmember", "identity", "diskerr", "logseq", "logcrash"}
 	type key struct {
 		prof string
 		seed uint64
@@ -1280,6 +1280,10 @@ func cmdSelftest(args []string) int {
 				defer func() { <-sem }()
 				per := uint64((seeds + len(profNames) - 1) / len(profNames))
 				jb := job{Profile: prof, BaseSeed: base + uint64(pi), From: 0, Count: per, Engine: "raft"}
+				if strings.HasPrefix(prof, "log") {
+					jb.Engine = "log"
+					jb.Count = per * 20 // log programs are short
+				}
 				os.Setenv("GOMAXPROCS_OVERRIDE", gmp[p%3])
 				b := runWorkerGMP(bdir, jb, gmp[p%3])
 				mu.Lock()
